@@ -276,7 +276,10 @@ def check(F, rep, tier):
         texts = list(ft.locals) + [t[1].get("full") or "" for b2, t in ft.calls()]
         hits = sorted({h for tx in texts for h in c14.bad_zone(tx)})
         utc = any("chrono::DateTime<chrono::Utc>" in tx or "chrono::Utc" in tx for tx in texts)
-        from_ts = any((mir.callee(t) or "").endswith("::from_timestamp") for b2, t in ft.calls())
+        from_ts = any((mir.callee(t) or "").endswith("::from_timestamp") for g_ in [ft] + mir.closures_in(F, ft) for b2, t in g_.calls())
+        texts += [t[1].get("full") or "" for g_ in mir.closures_in(F, ft) for b2, t in g_.calls()]
+        utc = utc or any("chrono::DateTime<chrono::Utc>" in tx or "chrono::Utc" in tx for tx in texts)
+        hits = sorted(set(hits) | {h for tx in texts for h in c14.bad_zone(tx)})
         if hits: rep.bad("R15.7", "format-timestamp-zone", "format_timestamp uses non-UTC time zone machinery: %s" % hits, ft.where())
         elif utc and from_ts: rep.ok("R15.7", "format_timestamp formats DateTime::<Utc>::from_timestamp(value)", nontrivial_key="ftutc")
         else: rep.bad("R15.7", "format-timestamp-shape", "format_timestamp does not build a UTC DateTime with from_timestamp", ft.where())
@@ -376,6 +379,16 @@ def check(F, rep, tier):
             c = mir.callee(t) or ""
             if any(c.endswith(x) for x in ("Option::<T>::filter", "::max", "::clamp")) and t[2] and from_length(t[2][0]):
                 filt = "%s bb%d line %s (%s)" % (g.where(), bi, g.blocks[bi]["line"], c.rsplit("::", 1)[-1])
+        # a `length` of the wrong type is not "no length": `args.get("length").and_then(as_u64).unwrap_or(default)` puts the default in
+        # place of length="3", -1 or 2.5, and the result is then longer than what was asked for
+        conflated = None
+        for bi, t in g.calls():
+            c = (mir.callee(t) or "").rsplit("::", 1)[-1]
+            if c not in ("unwrap_or", "unwrap_or_default", "unwrap_or_else", "map_or", "map_or_else") or not t[2] or not from_length(t[2][0]): continue
+            conv = {(mir.callee(g.blocks[int(d)]["t"]) or "").rsplit("::", 1)[-1] for k, d in mir.deep_origins(g, t[2][0], stop=()) if k == "call" and d.isdigit() and g.blocks[int(d)]["t"][0] == "call"}
+            conv |= {(mir.callee(t3) or "").rsplit("::", 1)[-1] for c_ in mir.closures_in(F, g) for b3, t3 in c_.calls()}
+            if conv & {"as_u64", "as_i64", "as_f64", "as_str", "parse"}: conflated = "%s bb%d line %s (%s after %s)" % (g.where(), bi, g.blocks[bi]["line"], c, sorted(conv & {"as_u64", "as_i64", "as_f64", "as_str", "parse", "and_then"}))
+        if conflated: rep.bad("R15.9", "length-type-ignored:" + nm, "%s replaces a `length` argument of the wrong type by its default (%s): hash(value=x, length=\"3\") returns 7 characters" % (nm, conflated), g0.where())
         if not found: rep.undecided("R15.9", "length-lookup:" + nm, "%s: the `length` argument lookup is not recognised" % nm, g0.where()); continue
         nlen += 1
         if filt: rep.bad("R15.9", "length-filtered:" + nm, "%s uses its `length` argument only when it passes a comparison (%s): some explicit lengths (e.g. 0) are silently replaced by the default, so the result is longer than asked" % (nm, filt), g0.where())
@@ -390,6 +403,9 @@ def check(F, rep, tier):
         if dyn: rep.bad("R15.10", "context-dynamic-keys", "the template context is serialised with run-time keys at its top level (%s): a custom variable named like a built-in one (semver, pep440, major, dirty, ...) replaces it in every template" % dyn[:4], ser[0].where())
         elif fixed: rep.ok("R15.10", "the template context is a struct with a fixed set of field names (%d serialize_field calls)" % len(fixed), nontrivial_key="ctxfixed")
         else: rep.undecided("R15.10", "context-serialize-shape", "the context's Serialize impl is neither serialize_struct nor map based", ser[0].where())
+    # (called directly, not borrowed: C17 -> C06 -> C16 -> C15 would close a borrow cycle)
+    import parsers as _ps
+    _ps.narrowing_casts(F, rep, "R15.7", ("crate::cli::utils::template::functions::format_timestamp_function",), "the timestamp format_timestamp hands to chrono", sign=True, floor=1)
     # ---- R15.11 sanitize(..) equals the sanitiser contract: the value is sanitised as given (the rule lives with C16's wrapper rules) ----
     import c16 as _c16
     _c16.template_value_rule(F, rep, "R15.11")
